@@ -367,3 +367,34 @@ Theorem wellformed_all (pf : str -> pfres) (ns l : str) :
      f64_finite_pos (m_rate m) = true) /\
   (forall e, lex pf ns l = OEvent e -> Forall good_tag (e_tags e)).
 Proof. split; [exact (wellformed_metric pf ns l)|exact (wellformed_event pf ns l)]. Qed.
+
+(* hypotheses of the remaining clauses of [reject_all] on "a:1|x|#t", "a:1|c|@abc", "a:1|c|@0.5|@0",
+   "a:abc|g", and leading zeros in an event header "_e{01,002}:a|bc|d:007" *)
+Definition ex_pf0 (s : str) : pfres := if str_eqb s [48] then PFVal 0 else ex_pf s.
+
+Example ex_reject_hyps :
+  (wf_raw_name [97] /\ wf_value [49] /\ ~ In c_pipe [120] /\ ~ In c_nul [120] /\
+   (forall ty, [120] <> tytok_str ty) /\
+   lex ex_pf [] ([97] ++ c_colon :: [49] ++ c_pipe :: [120] ++ c_pipe :: [35;116]) = OReject EInvalidType) /\
+  (Forall wf_attr [ARate [97;98;99]] /\ (forall x, ex_pf [97;98;99] <> PFVal x)) /\
+  (Forall wf_attr [ARate [48;46;53]; ARate [48]] /\
+   attrs_rate ex_pf0 f64_one [ARate [48;46;53]; ARate [48]] = RateOk 0 /\ f64_finite_pos 0 = false /\
+   lex ex_pf0 [] (render_metric [97] [49] TokC [ARate [48;46;53]; ARate [48]]) = OReject EInvalidRate) /\
+  (wf_value [97;98;99] /\ TokG <> TokS /\ (forall x, ex_pf [97;98;99] <> PFVal x)).
+Proof.
+  repeat split; try (cbv; intuition discriminate); try (vm_compute; reflexivity).
+  - intros ty; destruct ty; discriminate.
+  - repeat constructor. cbv; intuition discriminate.
+  - repeat constructor; cbv; intuition discriminate.
+Qed.
+
+Example ex_event_digits :
+  is_number [48;49] /\ digit_value [48;49] = 1 /\ is_number [48;48;50] /\ digit_value [48;48;50] = 2 /\
+  Forall wf_eattr [EADate [48;48;55]] /\
+  lex ex_pf [] (render_event_digits [48;49] [48;48;50] [97] [98;99] [EADate [48;48;55]]) =
+  OEvent {| e_title := [97]; e_text := [98;99]; e_date := 7; e_host := []; e_key := [];
+            e_pri := 0; e_stype := []; e_alert := 0; e_tags := [] |}.
+Proof.
+  repeat split; try discriminate; try (repeat constructor); try (vm_compute; reflexivity).
+  all: try (cbv; discriminate).
+Qed.
